@@ -58,7 +58,7 @@ Definition wf_bitem (b : bitem) : bool :=
   match b with
   | BChar c => plain_in_bracket c
   | BRange lo hi => plain_in_bracket lo && plain_in_bracket hi && (lo <=? hi)
-  | BClass k => (k <? 14) && negb (k =? 7)       (* [:punct:] is spelled out by the translation: validated, not in this theorem *)
+  | BClass k => (k <? 12) && negb (k =? 7) && negb (k =? 1)   (* the POSIX names; [:punct:] and [:digit:] are spelled out by the translation: validated, not in this theorem *)
   end.
 Definition first_char (items : list bitem) : option nat :=
   match items with [] => None | b :: _ => hd_error (show_bitem b) end.
